@@ -297,6 +297,49 @@ def bcast_vec_check(ctx, c, outs):
     return None
 
 
+def reuse_check(ctx, c, outs):
+    """products of an object that was used before and then edited IN PLACE (setitem / data / component setters, also
+    strided views) equal the products of a freshly constructed object with the same content"""
+    Q, R, O, M, qmod, V, Mi = _imp()
+    cls = {"Q": Q, "R": R}[c["cls"]]
+    a0 = np.array(c["a"], float)
+    b = cls(np.array(c["b"], float))
+    v = V(np.array(c["v"], float))
+    A = cls(a0.copy())
+    if c["cls"] == "R":
+        A.improper = np.array(c["fa"], bool)
+    if c.get("strided"):
+        A = A[::2]
+        a0 = A.data.copy()
+    _ = A.outer(b), A * v[: A.size] if v.size >= A.size else None   # first use
+    if A.shape == b.shape:
+        _ = A * b
+    new = np.array(c["new"], float)
+    k = c["k"] % A.size
+    if c["edit"] == "setitem":
+        A[k] = cls(new[None, :])
+    elif c["edit"] == "data":
+        d = A.data.copy()
+        d[k] = new
+        A.data = d
+    else:
+        A.a[k], A.b[k], A.c[k], A.d[k] = new
+    cur = A.data.copy()
+    fresh = cls(cur.copy())
+    if c["cls"] == "R":
+        fresh.improper = A.improper.copy()
+    for name, f in (("outer", lambda X: X.outer(b).data), ("outer_v", lambda X: X.outer(v).data),
+                    ("mul", (lambda X: (X * b).data) if A.shape == b.shape else None),
+                    ("inv_mul", lambda X: (X * ~X).data)):
+        if f is None:
+            continue
+        got, want = f(A), f(fresh)
+        if got.shape != want.shape or np.abs(got - want).max() > 1e-12:
+            return (f"{c['cls']}: {name} after an in-place edit ({c['edit']}, element {k}, strided={bool(c.get('strided'))}) "
+                    f"differs from the same product of a freshly constructed object by {np.abs(got - want).max():.3e}")
+    return None
+
+
 def align_check(ctx, c, outs):
     Q, R, O, M, qmod, V, Mi = _imp()
     q = np.array(c["q"], float)
@@ -326,6 +369,7 @@ SITES = {
     "broadcast": sites.Site("broadcast", "prop", bcast_check),
     "broadcast_vec": sites.Site("broadcast_vec", "prop", bcast_vec_check),
     "align": sites.Site("align", "prop", align_check),
+    "reuse_after_edit": sites.Site("reuse_after_edit", "prop", reuse_check),
 }
 PREDICATES = {}
 
@@ -399,6 +443,15 @@ def generate(ctx):
         c = {"r1": rot_arr(rng, sa), "vshape": list(sb), "v": [G.vec(rng) for _ in range(int(np.prod(sb)))]}
         ctx.count("broadcast_vec", ("bv", sa, sb, c["r1"]["q"]), nontrivial=(sa != sb))
         yield "broadcast_vec", c
+        na = int(rng.integers(2, 6))
+        c = {"cls": ["Q", "R"][k % 2], "a": [G.unit_quat(rng)[0] for _ in range(na)], "fa": [bool(rng.integers(2)) for _ in range(na)],
+             "b": [G.unit_quat(rng)[0] for _ in range([na, 3][k % 2])], "v": [G.vec(rng) for _ in range(na)],
+             "new": G.unit_quat(rng)[0], "k": int(rng.integers(na)), "edit": ["setitem", "data", "component"][k % 3],
+             "strided": bool(k % 4 == 0 and na >= 4)}
+        if c["strided"]:
+            c["b"] = c["b"][: (na + 1) // 2] if k % 2 == 0 else c["b"]
+        ctx.count(f"reuse_after_edit/{c['cls']}/{c['edit']}", ("re", k, tuple(c["a"][0])))
+        yield "reuse_after_edit", c
         nv = int(rng.integers(2, 7))
         vs = [G.vec(rng) for _ in range(nv)]
         if np.linalg.matrix_rank(np.array(vs)) < 2:
